@@ -38,7 +38,8 @@ def make_server(spec, result):
         else:
             good = {"errors": [{"message": "bad request"}]}
         status = 200
-        headers = {"content-type": "application/json"}
+        ct = spec.get("content_type", "application/json")
+        headers = {"content-type": ct} if ct else {}
         raw = json.dumps(good).encode()
         if k == "none":
             pass
